@@ -4,6 +4,7 @@ import (
 	"fmt"
 	"go/token"
 	"go/types"
+	"sort"
 	"strings"
 
 	"golang.org/x/tools/go/ssa"
@@ -106,6 +107,7 @@ func checkC08(c *an.Ctx) {
 	c.Rule("C08.2", "pure combinators (E4): Variables.Merge and .With write only to a container allocated in the same activation; in the functions under them no append, element write or map write targets a slice or map that can share backing storage with an operand (loaded from an operand's field, re-sliced without a capacity limit, or parked in the result's field)")
 	c.Rule("C08.4", "shared definition storage (E4 alias analysis, module-wide): no element store, map update on a slice or map reachable from a field of a task.Task the writer did not build itself (loaded from the field, an element of it, a re-slice, or a slice that copy() filled with its reference-typed elements) — the per-stage copy is shallow, such a write leaks into every other user of the task")
 	c.Rule("C08.3", "layering (E5/E2): the runner caller of the scheduler runs a per-stage copy of the task whose Env is [Task.Env < Stage.Env], Variables [Task.Variables < Stage.Variables] and Dir = Stage.Dir when non-empty; Runner.Run receives that copy")
+	c.Rule("C08.5", "no package-level state on the way from settings to command (who-may-use, call graph): the functions that turn a stage's settings into what its commands see — everything reachable from CompileTask, CompileCommand and the executor's Execute — use no package variable of the module other than immutable ones (basic, error and function values and compiled regular expressions never assigned after initialisation, maps and slices that are only read); an object kept in a package variable is shared by the stage goroutines, and what one stage puts into it (a template text, a value) is what another one takes out")
 	c.NotDecided = append(c.NotDecided, "sharing introduced by a caller handing one *Stage to two graphs", "containers reachable through other aliases than the three task fields")
 	p := c.P
 	fields := map[string]bool{"Env": true, "Variables": true, "Dir": true}
@@ -340,6 +342,121 @@ func checkC08(c *an.Ctx) {
 
 	stageLayering(c, "C08.3")
 	taskStorageWrites(c, "C08.4")
+	packageState(c, "C08.5")
+}
+
+// packageState checks C08.5.
+func packageState(c *an.Ctx, rule string) {
+	p := c.P
+	var roots []*ssa.Function
+	if f := p.Func("pkg/runner", "TaskCompiler", "CompileTask"); f != nil {
+		roots = append(roots, f)
+	}
+	if ccr := resolveCmdCompiler(p); ccr.fn != nil {
+		roots = append(roots, ccr.fn)
+	}
+	for _, fn := range p.Funcs {
+		if fn.Name() == "Execute" && fn.Signature.Recv() != nil && inPkgs("pkg/executor")(fn) && fn.Blocks != nil {
+			roots = append(roots, fn)
+		}
+	}
+	if len(roots) < 3 {
+		c.Und(rule, "compile path roots", token.NoPos, "CompileTask / CompileCommand / Execute not all found (%d)", len(roots))
+		return
+	}
+	reach := p.Reach(roots, func(e an.CallEdge) bool { return an.InModule(e.Callee) })
+	var fns []*ssa.Function
+	for f := range reach {
+		fns = append(fns, f)
+	}
+	sort.Slice(fns, func(i, j int) bool { return fns[i].String() < fns[j].String() })
+	// stores to module globals outside package initialisers
+	assigned := map[*ssa.Global]bool{}
+	written := map[*ssa.Global]bool{} // element / map writes through a load of the global
+	for _, fn := range p.Funcs {
+		if !an.InModule(fn) || fn.Name() == "init" {
+			continue
+		}
+		an.EachInstr(fn, func(in ssa.Instruction) {
+			switch x := in.(type) {
+			case *ssa.Store:
+				if g, ok := x.Addr.(*ssa.Global); ok {
+					assigned[g] = true
+				}
+				if ia, ok := x.Addr.(*ssa.IndexAddr); ok {
+					for _, src := range an.Sources(ia.X) {
+						if u, ok := src.(*ssa.UnOp); ok {
+							if g, ok := u.X.(*ssa.Global); ok {
+								written[g] = true
+							}
+						}
+					}
+				}
+			case *ssa.MapUpdate:
+				for _, src := range an.Sources(x.Map) {
+					if u, ok := src.(*ssa.UnOp); ok {
+						if g, ok := u.X.(*ssa.Global); ok {
+							written[g] = true
+						}
+					}
+				}
+			}
+		})
+	}
+	immutable := func(g *ssa.Global) (bool, string) {
+		if assigned[g] {
+			return false, "is assigned outside package initialisation"
+		}
+		t := an.Deref(g.Type())
+		switch u := t.Underlying().(type) {
+		case *types.Basic, *types.Signature:
+			return true, ""
+		case *types.Interface:
+			if types.Identical(t, types.Universe.Lookup("error").Type()) {
+				return true, ""
+			}
+			return false, "holds an object behind an interface"
+		case *types.Pointer:
+			if an.TypeIs(u.Elem(), "regexp", "Regexp") {
+				return true, ""
+			}
+			return false, "is a shared " + types.TypeString(t, func(pk *types.Package) string { return pk.Name() })
+		case *types.Map, *types.Slice:
+			if written[g] {
+				return false, "is a map or slice written after initialisation"
+			}
+			return true, ""
+		case *types.Struct:
+			_ = u
+			return false, "is a shared " + types.TypeString(t, func(pk *types.Package) string { return pk.Name() })
+		}
+		return false, "is a shared " + types.TypeString(t, func(pk *types.Package) string { return pk.Name() })
+	}
+	nUses := 0
+	bad := false
+	for _, fn := range fns {
+		seen := map[*ssa.Global]bool{}
+		an.EachInstr(fn, func(in ssa.Instruction) {
+			for _, op := range in.Operands(nil) {
+				if op == nil || *op == nil {
+					continue
+				}
+				g, ok := (*op).(*ssa.Global)
+				if !ok || g.Pkg == nil || !strings.HasPrefix(g.Pkg.Pkg.Path(), an.ModulePath) || strings.HasPrefix(g.Name(), "init$") || seen[g] {
+					continue
+				}
+				seen[g] = true
+				nUses++
+				if ok, why := immutable(g); !ok {
+					bad = true
+					c.Bad(rule, an.Short(fn)+":"+g.Pkg.Pkg.Name()+"."+g.Name(), in.Pos(), "package variable %s.%s %s and is used on the way from a stage's settings to its commands (%s): the stage goroutines share it, so what one stage stores or parses into it can be what another stage executes with", g.Pkg.Pkg.Name(), g.Name(), why, p.PathString(reach[fn]))
+				}
+			}
+		})
+	}
+	if !bad {
+		c.OK(rule, "compile path:package variables", roots[0].Pos(), "%d functions reachable from CompileTask, CompileCommand and Execute use %d package variables of the module, all immutable", len(fns), nUses)
+	}
 }
 
 const rule1 = "C08.1"
